@@ -893,10 +893,27 @@ void Validator::ValidatorImpl::handleErrorsFromImports(size_t initialErrorCount,
             std::ostringstream os;
             if (isOriginatingModel) {
                 // If error is not from this model then set this component or units.
+                // Note: the markers are prepended to the description (see below),
+                //       so they are only looked for where they were put and not
+                //       anywhere else in the description, which may contain the
+                //       text of a marker (e.g., in the name of a component).
                 size_t depth = 0;
-                size_t pos = description.find(notOriginMarker);
                 size_t originalDescriptionStart = 0;
+                auto markerAt = [&](size_t offset) {
+                    return (description.compare(offset, notOriginMarker.length(), notOriginMarker) == 0) ? offset : std::string::npos;
+                };
+                size_t pos = markerAt(0);
                 while (pos != std::string::npos) {
+                    size_t startMarker = description.find(dataBoundaryMarker, pos);
+                    size_t endMarker = (startMarker == std::string::npos) ? std::string::npos : description.find(dataBoundaryMarker, startMarker + 1);
+                    if (endMarker == std::string::npos) {
+                        break;
+                    }
+                    std::string importInfo = description.substr(startMarker + 1, endMarker - startMarker - 1);
+                    auto ss = split(importInfo);
+                    if (ss.size() < 3) {
+                        break;
+                    }
                     if (depth == 0) {
                         os << "Imported ";
                         if (type == "Component") {
@@ -906,13 +923,9 @@ void Validator::ValidatorImpl::handleErrorsFromImports(size_t initialErrorCount,
                         }
                         os << "'" << name << "' is not valid because:" << std::endl;
                     }
-                    size_t startMarker = description.find(dataBoundaryMarker, pos);
-                    size_t endMarker = description.find(dataBoundaryMarker, startMarker + 1);
-                    std::string importInfo = description.substr(startMarker + 1, endMarker - startMarker - 1);
-                    auto ss = split(importInfo);
                     os << "  -> " << type << " '" << ss[0] << "' importing '" << ss[1] << "' from '" << ss[2] << "'";
                     originalDescriptionStart = endMarker + 1;
-                    pos = description.find(notOriginMarker, pos + 1);
+                    pos = markerAt(originalDescriptionStart);
                     depth += 1;
                     if (pos == std::string::npos) {
                         if (depth > 1) {
